@@ -2,6 +2,7 @@ package uid
 
 import (
 	"database/sql"
+	"errors"
 	"fmt"
 	"log"
 	"net"
@@ -287,7 +288,9 @@ func handleUIDStore(deps ServerDeps, conn net.Conn, tag string, parts []string, 
 			// Move to Spam folder
 			err = message.MoveMessageToMailbox(targetDB, messageID, state.SelectedMailboxID, "Spam", state.UserID, cleanedFlagsStr, internalDate)
 			if err != nil {
-				log.Printf("Failed to move message %d to Spam: %v", messageID, err)
+				if !errors.Is(err, message.ErrAlreadyInMailbox) {
+					log.Printf("Failed to move message %d to Spam: %v", messageID, err)
+				}
 			} else {
 				log.Printf("Auto-moved message %d to Spam folder (Junk flag added)", messageID)
 				// Send EXPUNGE notification to tell client the message is gone from this mailbox
@@ -305,7 +308,9 @@ func handleUIDStore(deps ServerDeps, conn net.Conn, tag string, parts []string, 
 			// Move to INBOX
 			err = message.MoveMessageToMailbox(targetDB, messageID, state.SelectedMailboxID, "INBOX", state.UserID, cleanedFlagsStr, internalDate)
 			if err != nil {
-				log.Printf("Failed to move message %d to INBOX: %v", messageID, err)
+				if !errors.Is(err, message.ErrAlreadyInMailbox) {
+					log.Printf("Failed to move message %d to INBOX: %v", messageID, err)
+				}
 			} else {
 				log.Printf("Auto-moved message %d to INBOX (NonJunk flag added)", messageID)
 				// Send EXPUNGE notification to tell client the message is gone from this mailbox
